@@ -103,6 +103,31 @@ def base_case(seed, families=('core', 'agg', 'rec')):
 
 # ---------------------------------------------------------------- C07(a)
 
+def c07_functor_pairs(seed):
+  """renaming the made predicates (which changes the alphabetical order in which := lines are
+  executed) and permuting the := lines must not change any made predicate."""
+  import re
+  rnd = random.Random(seed ^ 0x7c04)
+  base, fun_text, hand_prog, made, notes = c04_case(seed)
+  names = list(made)
+  pool = ['Aaa', 'Zzz', 'Mmm', 'Bb1', 'Yy9', 'Kk']
+  rnd.shuffle(pool)
+  ren = {n: pool[i] for i, n in enumerate(names)}
+  text2 = fun_text
+  for n, m in ren.items():
+    text2 = re.sub(r'\b%s\b' % re.escape(n), m, text2)
+  lines = text2.strip().split('\n')
+  make_lines = [l for l in lines if ':=' in l]
+  other = [l for l in lines if ':=' not in l]
+  rnd.shuffle(make_lines)
+  text2 = '\n'.join(other + make_lines) + '\n'
+  pairs = []
+  for n in names:
+    pairs.append(dict(a=Side(fun_text, n, label='original'), b=Side(text2, ren[n], label='made predicates renamed'),
+                      tables=['E', 'F', 'G'], K=2, strings_list=[], label='functor rename %s %s' % (n, notes)))
+  return pairs
+
+
 def c07_pairs(seed):
   rnd = random.Random(seed ^ 0xc07)
   case = base_case(seed)
@@ -652,7 +677,7 @@ def c04_case(seed):
   makes.append(('N1', 'Fn', {'A1': b1}))
   makes.append(('N2', 'Fn', {'A2': 'B2'}))
   kind = rnd.choice(['two_args', 'other_binding', 'same_binding', 'of_result', 'same_value_diff_param',
-                     'name_order', 'through_made', 'through_made'])
+                     'name_order', 'through_made', 'through_made', 'dependent_args', 'dependent_args'])
   extra_rules = []
   if kind == 'two_args':
     makes.append(('N3', 'Fn', {'A1': b1, 'A2': 'B2'}))
@@ -677,6 +702,18 @@ def c04_case(seed):
     base = Program(rules, ext=gen.EXT)
     makes = [('N1', 'Fn', {'A1': b1}), ('N2', 'Fn', {'A1c': b1})]
     shape = 'shared2'
+  elif kind == 'dependent_args':
+    # one parameter is defined via another parameter; an earlier application binds only the
+    # inner one, a later application binds both (the call cache must not replace the binding)
+    rules = [r for r in rules if r.pred in ('A1', 'A2', 'B1', 'B1b', 'B2')]
+    rules = [r for r in rules if r.pred != 'A1']
+    rules.append(Rule('A1', [x], body=Conj([A('A2', x, y), Cmp(rnd.choice(['>', '!=', '<=']), y, Num(rnd.choice([0, 1])))])))
+    rules.append(Rule('Fn', [x, y], body=Conj([A('A1', x), A('A2', x, y)])))
+    base = Program(rules, ext=gen.EXT)
+    makes = [('Quote', 'Fn', {'A2': 'B2'}), ('Special', 'Fn', {'A1': b1, 'A2': 'B2'})]
+    if rnd.random() < 0.5:
+      makes.append(('Third', 'Fn', {'A1': b1}))
+    shape = 'dependent_args'
   elif kind == 'through_made':
     # an ordinary predicate built on a made predicate; a second application reaches the
     # made predicate only through that intermediate, and its argument also occurs inside it
@@ -759,7 +796,8 @@ def c17_pairs(seed):
     rules.append(Rule('M', [x, y], body=Conj([A('E', x, y), Cmp('!=', x, y)])))
     def M(a, b):
       return Atom('M', [a, b], [])
-  nkind = rnd.choice(['join', 'filter', 'neg', 'agg_expr', 'with_helper', 'two_grounds', 'neg', 'agg_expr'])
+  nkind = rnd.choice(['join', 'filter', 'neg', 'agg_expr', 'with_helper', 'two_grounds', 'neg', 'agg_expr',
+                      'three_consumers'])
   grounded = ['M']
   if nkind == 'join':
     rules.append(Rule('N', [x, y], body=Conj([M(x, y), A('G', x)])))
@@ -774,6 +812,12 @@ def c17_pairs(seed):
     if rnd.random() < 0.5:
       order.reverse()
     rules.append(Rule('N', [x, y, z], body=Conj(order)))
+  elif nkind == 'three_consumers' and mkind == 'helper':
+    # Tt (aggregate over the two-rule T2) is shared by two grounded predicates and the dependant
+    rules.append(Rule('M2', [x, y], body=Conj([Atom('Tt', [x], [('total', y)]), Cmp('<=', y, Num(1))])))
+    rules.append(Rule('N', [x, z], body=Conj([M(x, y), Atom('Tt', [x], [('total', z)])]) if rnd.random() < 0.5 else
+                      Disj([Conj([M(x, z)]), Conj([A('M2', x, z)]), Conj([Atom('Tt', [x], [('total', z)])])])))
+    grounded.append('M2')
   elif nkind == 'two_grounds':
     rules.append(Rule('M2', [x], distinct=True, body=M(x, y)))
     rules.append(Rule('N', [x], body=Conj([A('M2', x), A('G', x)])))
@@ -971,7 +1015,7 @@ def c14_pairs(seed):
   A = gen.A
   x, y, z = Var('x'), Var('y'), Var('z')
   kind = ['ground_chain', 'ground_diamond', 'deep_rec', 'ground_diamond', 'final_and_intermediate',
-          'two_recursions'][seed % 6]
+          'two_recursions', 'shared_helper', 'shared_helper'][seed % 8]
   pairs = []
   if kind == 'deep_rec':
     case = gen.recdeep_case(seed)
@@ -988,6 +1032,20 @@ def c14_pairs(seed):
              Rule('Rb', [y], distinct=True, body=Conj([A('Rb', x), A('F', x, y)]))]
     prog = Program(rules, ['@Recursive(Ra, %d);' % rnd.choice([21, 22]), '@Recursive(Rb, %d);' % rnd.choice([21, 23])], gen.EXT)
     preds = ['Rb', 'Ra']
+    K = 2
+  elif kind == 'shared_helper':
+    # Source is grounded; Helper (aggregating, not grounded, hence WITH-compiled) reads it and is
+    # used by three grounded parents whose names sort around Source
+    names = rnd.choice([['Agg1', 'Agg2', 'Agg3'], ['Zed1', 'Agg2', 'Mid3'], ['Tau', 'Upsilon', 'Alpha']])
+    rules = [Rule('Source', [x, y], body=A('E', x, y)),
+             Rule('Helper', [x], [('s', Agg('Sum', y))], distinct=True, body=A('Source', x, y))]
+    ann = ['@Ground(Source);']
+    for i, n in enumerate(names):
+      rules.append(Rule(n, [x, Bin('+', Var('s'), Num(i))], body=Atom('Helper', [x], [('s', None)])))
+      ann.append('@Ground(%s);' % n)
+    rules.append(Rule('Report', [x], distinct=True, body=Disj([A(n, x, y) for n in names])))
+    prog = Program(rules, ann, gen.EXT)
+    preds = ['Report', names[2]]
     K = 2
   else:
     rules = [Rule('Shared', [x, y], body=rnd.choice([A('E', x, y), Conj([A('E', x, z), A('F', z, y)])]))]
